@@ -29,6 +29,12 @@ RULE = ('(a) exhaustive: all 63 non-empty subsets of the six sources (call '
         'level and a sub-template call, 3 syntaxes.  Non-trivial: >= 2 sources define the name, or a probe '
         'sits after a block that bound it.  Enumerated cases are distinct by '
         'construction.')
+RULE += (
+         'Also: the probed name drawn from 30 builtin-like / '
+         'helper-like names (max, id, filter, str, test, string, math, '
+         'namespace, title, REQUEST ...) for every form x value kind x '
+         'single sources and the full set; binding through '
+         '_.namespace(q=name). ')
 ASSUMPTIONS = ['reference interpreter vf/model.py is trusted for (b)']
 
 SOURCES = harness.SOURCE_ORDER
